@@ -149,6 +149,8 @@ pub struct Incent {
     pub blocks: u64,
     pub obs: crate::scen::incent_oracle::Obs,
     pub model: crate::scen::incent_oracle::Model,
+    /// scripted micro-history queued by the generator (popped from the back)
+    pub script: Vec<Step>,
 }
 
 impl Incent {
@@ -549,6 +551,7 @@ impl Scenario for Incent {
             blocks: 0,
             obs: Default::default(),
             model: Default::default(),
+            script: vec![],
         };
         s.obs = crate::scen::incent_oracle::observe(&s).unwrap_or_else(|e| panic!("harness: initial observation failed: {e}"));
         s.model = crate::scen::incent_oracle::Model::init(&s);
